@@ -86,7 +86,7 @@ def run(a, seed, t_start):
         print(f"CHECKER-ERROR property={prop}: fakesnow imported from {fs_file}, not from {repo}")
         return 3
 
-    timeout_s = a.timeout or (20 if a.tier == "quick" else 40)
+    timeout_s = a.timeout or (30 if a.tier == "quick" else 45)
     # which portfolio member discharged an obligation last time (committed file; only reorders the portfolio)
     try:
         with open(os.path.join(VERIF, "contracts", "solver_hints.json")) as f:
@@ -136,7 +136,9 @@ def run(a, seed, t_start):
         # one escalation (x3) for anything left open
         open_ = [o for o in rest if (o.verdict != "discharged") and not o.expect_refuted]
         if open_:
-            discharge(open_, timeout_ms=timeout_s * 3000, hints=HINTS.get(cname))
+            # escalation: four times the budget, the portfolio members side by side (the slow obligations are the unstable ones:
+            # whichever configuration gets there first decides)
+            discharge(open_, timeout_ms=timeout_s * 4000, hints=HINTS.get(cname), race=True)
         solver_time += sum(o.time for o in obls)
         trusted |= r.trusted_used
         byid = {o.id: o for o in obls}
